@@ -392,6 +392,61 @@ def load_ledger(unit_name):
     return None
 
 
+def run_sim(unit, mod, scratch, tier, jobs):
+    """Bounded stand-in (NOT a proof): programs compiled by the real compiler, the emitted code executed on the 6502 interpreter from stated
+    initial values and compared with C semantics.  One obligation per group of programs."""
+    from . import replay
+    import concurrent.futures as cf
+    r = Result(unit, None)
+    t0 = time.time()
+    try:
+        exe = replay.ensure_probe(scratch)
+    except Exception as e:
+        r.undecided = "probe driver: " + str(e)[:400]
+        return r
+    r.cmd = "vf/probe (cargo build against /repo) + vf/sim6502.py"
+    groups = mod.corpus(tier)
+    jobs_l = []
+    for gname, props, progs in groups:
+        for pr in progs:
+            jobs_l.append((gname, props, pr))
+    def one(j):
+        try:
+            return j, replay.run_probe(j[2], scratch)
+        except Exception as e:
+            return j, {"error": repr(e), "disagrees": None}
+    res = {}
+    with cf.ThreadPoolExecutor(max_workers=max(2, min(jobs, 12))) as ex:
+        for j, out in ex.map(one, jobs_l):
+            res.setdefault(j[0], []).append((j, out))
+    nprog = 0
+    for gname, props, progs in groups:
+        oid = "O-%s-sim-%s" % (props[0], gname)
+        outs = res.get(gname, [])
+        nprog += len(outs)
+        if any(o.get("disagrees") is None for _, o in outs):
+            r.undecided = "simulation could not run: " + str([o.get("error") for _, o in outs if o.get("disagrees") is None][:1])
+            return r
+        r.obligations.append({"id": oid, "props": props, "clause": "%d programs: compiled code run on the 6502 interpreter agrees with C" % len(outs),
+                              "backend": "bounded: real compiler + 6502 interpreter", "unit": unit.name, "cfg": None, "bounded": True})
+        bad = [(j, o) for j, o in outs if o.get("disagrees")]
+        if bad:
+            j, o = bad[0]
+            r.failed.append({"id": oid, "props": props, "kind": "simulation", "clause": "compiled code agrees with C", "message": "%d of %d programs disagree; first: %s" % (len(bad), len(outs), j[2].get("note", "")),
+                             "text": j[2]["source"], "rendered": json.dumps(o.get("simulation") or o, indent=1)[:3000], "unit": unit.name, "cfg": None,
+                             "lifted_input": j[2], "real_code_result": o})
+    r.verified_count = 0
+    r.canary_ok = True
+    r.programs = nprog
+    r.wall_s = time.time() - t0
+    # vacuity guard of this unit: a deliberately wrong expectation must be reported as a disagreement
+    can = replay.run_probe({"source": "unsigned char a, c;\nvoid main() { c = a + 1; }\n", "args": ["-O0"], "expect": {"panic": False},
+                            "simulate": {"init": {"a": 1}, "expect": {"c": 3}}}, scratch)
+    if not can.get("disagrees"):
+        r.canary_ok = False
+    return r
+
+
 def build_unit(mod, repo=None):
     repo = repo or REPO
     u = mod.build(repo)
@@ -406,6 +461,11 @@ def run_unit(mod, scratch, tier, seed, jobs):
     except Undecided as e:
         r = Result(Unit(mod.NAME, getattr(mod, "TOOL", "verus"), list(getattr(mod, "PROPS", [])), []), None)
         r.undecided = "extraction: " + str(e)
+        return [r]
+    if u.tool == "sim":
+        r = run_sim(u, mod, scratch, tier, jobs)
+        if not r.undecided and not r.canary_ok:
+            r.undecided = "vacuity guard: the simulator accepted a deliberately wrong expectation"
         return [r]
     for cfg in u.cfgs:
         text = u.text[cfg]
